@@ -1017,6 +1017,157 @@ theorem entryOf_voteOfChoice (ch : Election.Choice) :
   simp only [entryOf, voteOfChoice, Election.keepRunners, List.filter_map, List.map_map]
   rfl
 
+/-! ## the two models of the post-loops agree
+
+Group C (`Election.finishCell`, one cell, records in hierarchy order) and group
+D (`LevelLoop.finishCell`, inside the level loop) both model the correlation
+backfill and the running product of `run_type_assignment`.  They are the same
+function up to the record types. -/
+
+/-- D's per-level dict as C's record of the level loop (runner-up lists `[]`
+when the keys are absent) -/
+def toElectionRec (e : Entry) : Election.LevelRec :=
+  { assignment := e.assignment, prob := e.prob, avgCorr := e.corr,
+    runnerAssignment := (e.ru.getD ([], [], [])).1
+    runnerCorrelation := (e.ru.getD ([], [], [])).2.1
+    runnerProbability := (e.ru.getD ([], [], [])).2.2 }
+
+/-- D's finished dict as C's finished record (absent aggregate ↦ 0, absent
+flag ↦ false; both are present in a pipeline output) -/
+def toElectionOut (e : Entry) : Election.OutRec :=
+  { assignment := e.assignment, prob := e.prob, avgCorr := e.corr,
+    aggregate := e.agg.getD 0, runners := e.ru, directlyAssigned := e.direct.getD false }
+
+theorem fillCorr_agree : ∀ (prev : Option Rat) (es : List (Level × Entry)),
+    (fillCorr prev es).map (fun le => toElectionRec le.2) =
+      Election.fillDown prev (es.map (fun le => toElectionRec le.2))
+  | _, [] => rfl
+  | prev, (l, e) :: rest => by
+    simp only [fillCorr, List.map_cons, Election.fillDown]
+    cases hc : e.corr with
+    | none =>
+      have h1 : (toElectionRec e).avgCorr = none := hc
+      simp only [h1]
+      rw [fillCorr_agree prev rest]
+      rfl
+    | some x =>
+      have h1 : (toElectionRec e).avgCorr = some x := hc
+      simp only [h1]
+      rw [hc, fillCorr_agree (some x) rest]
+      congr 1
+      simp only [toElectionRec, hc]
+
+theorem fillDown_agree : ∀ (es : List (Level × Entry)),
+    (LevelLoop.fillDown es).map (fun le => toElectionRec le.2) =
+      Election.fillDown none (es.map (fun le => toElectionRec le.2))
+  | [] => rfl
+  | (l, e) :: rest => by
+    simp only [LevelLoop.fillDown, List.map_cons, Election.fillDown]
+    rw [fillCorr_agree e.corr rest]
+    cases hc : e.corr with
+    | none =>
+      have h1 : (toElectionRec e).avgCorr = none := hc
+      simp only [h1]
+      congr 1
+      simp only [toElectionRec, hc]
+    | some x =>
+      have h1 : (toElectionRec e).avgCorr = some x := hc
+      simp only [h1]
+      congr 1
+      simp only [toElectionRec, hc]
+
+/-- the value `prev` has after C's top-down sweep has passed `xs` -/
+def lastCorr : Option Rat → List Election.LevelRec → Option Rat
+  | prev, [] => prev
+  | prev, r :: rs =>
+    lastCorr (match r.avgCorr with
+      | some c => some c
+      | none => prev) rs
+
+theorem election_fillDown_append : ∀ (xs : List Election.LevelRec) (prev : Option Rat)
+    (ys : List Election.LevelRec),
+    Election.fillDown prev (xs ++ ys) =
+      Election.fillDown prev xs ++ Election.fillDown (lastCorr prev xs) ys
+  | [], _, _ => rfl
+  | r :: rs, prev, ys => by
+    simp only [List.cons_append, Election.fillDown, lastCorr]
+    exact congrArg _ (election_fillDown_append rs _ ys)
+
+theorem lastCorr_append : ∀ (xs : List Election.LevelRec) (prev : Option Rat)
+    (ys : List Election.LevelRec), lastCorr prev (xs ++ ys) = lastCorr (lastCorr prev xs) ys
+  | [], _, _ => rfl
+  | r :: rs, prev, ys => by
+    simp only [List.cons_append, lastCorr]
+    rw [lastCorr_append rs _ ys]
+
+/-- `avg_correlation` of the first record -/
+def headCorr : List Election.LevelRec → Option Rat
+  | [] => none
+  | r :: _ => r.avgCorr
+
+/-- C's bottom-up sweep (structural recursion) is D's (top-down sweep of the
+reversed list) -/
+theorem election_fillUp_eq : ∀ (rs : List Election.LevelRec),
+    Election.fillUp rs = (Election.fillDown none rs.reverse).reverse ∧
+    headCorr (Election.fillUp rs) = lastCorr none rs.reverse
+  | [] => ⟨rfl, rfl⟩
+  | r :: rs => by
+    obtain ⟨ih1, ih2⟩ := election_fillUp_eq rs
+    refine ⟨?_, ?_⟩
+    · simp only [Election.fillUp, List.reverse_cons, election_fillDown_append, List.reverse_append,
+        Election.fillDown, List.reverse_nil, List.nil_append,
+        List.singleton_append, ← ih1, ← ih2]
+      cases Election.fillUp rs <;> rfl
+    · simp only [Election.fillUp, headCorr, List.reverse_cons, lastCorr_append, lastCorr, ← ih2]
+      cases Election.fillUp rs <;> rfl
+
+theorem fillUp_agree (es : List (Level × Entry)) :
+    (LevelLoop.fillUp es).map (fun le => toElectionRec le.2) =
+      Election.fillUp (es.map (fun le => toElectionRec le.2)) := by
+  rw [(election_fillUp_eq _).1]
+  simp only [LevelLoop.fillUp, List.map_reverse, fillDown_agree]
+
+theorem addAggregate_agree : ∀ (acc : Rat) (es : List (Level × Entry)),
+    (∀ le ∈ es, le.2.ru.isSome = true) →
+    (addAggregate acc es).map (fun le => toElectionOut { le.2 with direct := some true }) =
+      (List.zip (es.map (fun le => toElectionRec le.2))
+        (Election.runningProduct acc (es.map (fun le => le.2.prob)))).map
+        (fun (ra : Election.LevelRec × Rat) =>
+          ({ assignment := ra.1.assignment, prob := ra.1.prob, avgCorr := ra.1.avgCorr,
+             aggregate := ra.2,
+             runners := some (ra.1.runnerAssignment, ra.1.runnerCorrelation,
+               ra.1.runnerProbability),
+             directlyAssigned := true } : Election.OutRec))
+  | _, [], _ => rfl
+  | acc, (l, e) :: rest, h => by
+    have he := h (l, e) (by simp)
+    simp only [addAggregate, List.map_cons, Election.runningProduct, List.zip_cons_cons]
+    rw [addAggregate_agree (acc * e.prob) rest (fun x hx => h x (List.mem_cons_of_mem _ hx))]
+    congr 1
+    cases hru : e.ru with
+    | none => rw [hru] at he; cases he
+    | some r => simp [toElectionOut, toElectionRec, hru]
+
+/-- **D's `finishCell` is C's `finishCell`** (on the dicts the level loop
+writes, which always carry the runner-up keys), the `directly_assigned = True`
+mark of `run_type_assignment_on_h5ad` included.  So `C03.finished_level`,
+`C03.aggregate`, `C03.single_child`, `C03.pure_chain` speak about the records
+of group D's pipeline. -/
+theorem finishCell_agree (es : List (Level × Entry)) (h : ∀ le ∈ es, le.2.ru.isSome = true) :
+    (LevelLoop.finishCell es).map (fun le => toElectionOut { le.2 with direct := some true }) =
+      Election.finishCell (es.map (fun le => toElectionRec le.2)) := by
+  have hru : ∀ le ∈ LevelLoop.fillUp (LevelLoop.fillDown es), le.2.ru.isSome = true :=
+    fillUp_pres (fun _ e => e.ru.isSome = true) (fun _ _ _ h => h) _
+      (fillDown_pres (fun _ e => e.ru.isSome = true) (fun _ _ _ h => h) es h)
+  simp only [LevelLoop.finishCell, Election.finishCell]
+  rw [addAggregate_agree 1 _ hru, fillUp_agree, fillDown_agree]
+  have hp : (LevelLoop.fillUp (LevelLoop.fillDown es)).map (fun le => le.2.prob) =
+      (Election.fillUp (Election.fillDown none (es.map (fun le => toElectionRec le.2)))).map
+        (·.prob) := by
+    rw [← fillDown_agree, ← fillUp_agree, List.map_map]
+    rfl
+  rw [hp]
+
 /-! ## a concrete instance (non-vacuity examples of `Props/C15/Bridge`, `Props/C03/Bridge`) -/
 
 /-- an oracle with a full payload: the cell's number picks the child, every
